@@ -294,6 +294,37 @@ def run(ctx):
         wraps = "wrapping_add" in ms or "overflowing_add" in ms
         ctx.ob("N3", b.defp, "increment-does-not-wrap", loc(b.sp), not wraps and ("checked_add" in ms or "saturating_add" in ms or any(True for blk in b.rpo() if b.term(blk) and b.term(blk)["k"] == "assert")),
                "packet id increment is checked" if not wraps else "packet id uses wrapping_add: at u64::MAX it wraps to 0 and IDs are reused instead of the session ending")
+    # N3b the packet id of a session id never goes back: wherever a datagram Session value is built with a session id copied from an
+    # existing session (not drawn fresh), its packet-id fields must be copied from the same session too; and a packet-id field is only ever
+    # assigned from the increment (an add of itself) or a decoded / copied session, never a constant
+    sess_items = [it for it in prog.items if it["k"] == "struct" and {"client_session_id", "packet_id"} <= {n for (n, _) in it["fields"]}]
+    ctx.floor("N3", "datagram session struct (session id + packet id)", 1, len(sess_items))
+    for it in sess_items:
+        fidx = {n: i for i, (n, _) in enumerate(it["fields"])}
+        pairs = [("client_session_id", "packet_id")] + ([("server_session_id", "server_packet_id")] if {"server_session_id", "server_packet_id"} <= set(fidx) else [])
+        for b in bodies:
+            for blk in b.rpo():
+                for s in b.stmts(blk):
+                    if s["k"] == "assign" and s["rv"]["k"] == "agg" and s["rv"].get("def") == it["path"]:
+                        for (sid, pid) in pairs:
+                            ps, pp = op_place(s["rv"]["ops"][fidx[sid]]), op_place(s["rv"]["ops"][fidx[pid]])
+                            if ps is None:
+                                continue      # a constant id (e.g. 0 for "not assigned yet") starts a fresh numbering
+                            sl, scalls, _ = b.slice_back([ps[0]])
+                            fresh = derives_from_random(prog, b, ps[0])
+                            src_sessions = {l for l in sl if it["path"] == (b.local_ty_def(l) or "")}
+                            if fresh or not src_sessions:
+                                continue
+                            ok = False
+                            if pp is not None:
+                                pl, _, _ = b.slice_back([pp[0]])
+                                # the id's packet counter must come from (one of) the same session value(s), not from a default / constant
+                                same = {l for l in pl if it["path"] == (b.local_ty_def(l) or "")}
+                                ok = bool(same & src_sessions) and not any(c_.name == "Default::default" for (_, c_, _) in b.slice_back([pp[0]])[1])
+                            ctx.ob("N3", b.defp, f"{sid}-kept-implies-{pid}-kept", loc(s["sp"]), ok,
+                                   f"a session value that keeps an existing {sid} also keeps its {pid}" if ok else
+                                   f"a session value is rebuilt with the existing {sid} but a fresh {pid}: the counter restarts under the same session id (same subkey), "
+                                   "so the next datagrams reuse (key, nonce) pairs that were already used")
     enc = [b for b in bodies if b.impl_trait and last_seg(b.impl_trait) == "Encoder" and "DatagramPacketCodec" in (b.impl_self_def or "")]
     ctx.floor("N3", "client datagram encoder", 1, len(enc))
     for b in enc:
